@@ -513,3 +513,21 @@ def replay_dir(ctx, tla, cfg, is_reset):
         raise Infra("no failing-trace.ndjson in " + ctx.replay)
     ok = judge_trace(ctx, tla, cfg, p, "replay", 1, is_reset)
     return ctx.finish()
+
+
+def simulate_behaviours(tla, cfg, wd, num, depth, seed_, timeout=600):
+    """Run TLC in simulation mode and return the behaviours as lists of action labels ('A1(a1)', ...)."""
+    out = os.path.join(wd, "sim_" + os.path.splitext(cfg)[0])
+    shutil.rmtree(out, ignore_errors=True)
+    os.makedirs(out)
+    r = run_tlc(tla, cfg, wd, workers=1, timeout=timeout, simulate="file=%s/b,num=%d" % (out, num), depth=depth, seed_=seed_)
+    behs = []
+    for f in sorted(os.listdir(out)):
+        labels = []
+        for line in open(os.path.join(out, f)):
+            m = re.match(r"^\\\* <(\w+(?:\([^)]*\))?) line \d+", line)
+            if m and not m.group(1).startswith("Init"):
+                labels.append(m.group(1))
+        behs.append(labels)
+    shutil.rmtree(out, ignore_errors=True)
+    return behs, r
